@@ -135,6 +135,29 @@ let print_event (e : event) =
     (opt_n c.ci_transport) (opt_n c.ci_port_src) (opt_n c.ci_port_dst)
     (String.concat "" (List.map (fun x -> " " ^ string_of_int (int_of_n x)) e.ev_extra))
 
+(* decoding of ev=<events>: the IMPLEMENTATION's log, as parsed by the harness from the real
+   logger lines. ';' separates events, ',' fields (layer, verb, mac_src, mac_dst, ip_src, ip_dst,
+   transport, port_src, port_dst, extras), '/' the extras, '-' = absent, '.' = no event. *)
+let layer_of_name = function
+  | "arp" -> LArp | "eth" -> LEth | "ipv4" -> LIpv4 | "ipv6" -> LIpv6
+  | "icmpv4" -> LIcmpv4 | "icmpv6" -> LIcmpv6 | "tcp" -> LTcp | "udp" -> LUdp
+  | s -> failwith ("bad layer " ^ s)
+let verb_of_name = function
+  | "recv" -> Recv | "send" -> Send | "drop" -> Drop | s -> failwith ("bad verb " ^ s)
+let dec_opt f s = if s = "-" then None else Some (f s)
+let decode_event (s : string) : event =
+  match String.split_on_char ',' s with
+  | [l; v; ms; md; is; id; tr; ps; pd; x] ->
+    { ev_layer = layer_of_name l; ev_verb = verb_of_name v;
+      ev_ci = { ci_mac_src = dec_opt bytes_of_hex ms; ci_mac_dst = dec_opt bytes_of_hex md;
+                ci_ip_src = dec_opt parse_ip is; ci_ip_dst = dec_opt parse_ip id;
+                ci_transport = dec_opt n_of_dec tr; ci_port_src = dec_opt n_of_dec ps;
+                ci_port_dst = dec_opt n_of_dec pd; ci_cookie = None };
+      ev_extra = if x = "-" then [] else List.map n_of_dec (String.split_on_char '/' x) }
+  | _ -> failwith "bad event"
+let decode_events (s : string) : event list =
+  if s = "." then [] else List.map decode_event (String.split_on_char ';' s)
+
 (* monitors: the specifications' executable predicates, evaluated on the
    IMPLEMENTATION's answer (given as impl=<hex>|N on the F line) *)
 let monitors : (string * (config -> n list -> n list option -> bool)) list = [
@@ -171,13 +194,14 @@ let () =
           let (h, opts) = match rest with
             | x :: o when not (String.contains x '=') -> (x, o)
             | o -> ("", o) in
-          let date = ref [] and ft = ref N0 and impl = ref None and tsize = ref (-1) in
+          let date = ref [] and ft = ref N0 and impl = ref None and tsize = ref (-1) and ievs = ref None in
           List.iter (fun s -> let (k, v) = kv s in
                       match k with
                       | "date" -> date := bytes_of_hex v
                       | "ft" -> ft := n_of_dec v
                       | "impl" -> impl := Some (if v = "N" then None else Some (bytes_of_hex v))
                       | "tsize" -> tsize := int_of_string v
+                      | "ev" -> ievs := Some (decode_events v)
                       | _ -> ()) opts;
           let clk = { clk_date = !date; clk_filetime = !ft } in
           let frame = bytes_of_hex h in
@@ -188,7 +212,11 @@ let () =
                  Printf.printf "V %s %d\n" name (if m !cfg frame ir then 1 else 0)) monitors;
              List.iter (fun (name, m) ->
                if List.mem name wanted then
-                 Printf.printf "V %s %d\n" name (if m !cfg !rst frame ir then 1 else 0)) monitors_st
+                 Printf.printf "V %s %d\n" name (if m !cfg !rst frame ir then 1 else 0)) monitors_st;
+             (match !ievs with
+              | Some evs when List.mem "C20" wanted ->
+                Printf.printf "V C20 %d\n" (if ok_C20 !cfg frame ir evs then 1 else 0)
+              | _ -> ())
            | None -> ());
           (* reference connection state (C07/C08/C09) advances on every frame *)
           rst := ref_step !cfg !rst frame;
@@ -216,6 +244,11 @@ let () =
           let own = String.concat "" (List.map (fun g -> if own_data_of_frame !cfg fb (bytes_of_hex g) then "1" else "0") gs) in
           let col = String.concat "" (List.map (fun g -> if collides_with_frame !cfg fb (bytes_of_hex g) then "1" else "0") gs) in
           Printf.printf "O %s %s\n" (if own = "" then "-" else own) (if col = "" then "-" else col)
+        | "LOG" :: fmt :: ts :: ev :: _ ->
+          (* C20: the line Log.v renders for an event, given the timestamp text *)
+          let e = decode_event ev in
+          let t = bytes_of_hex ts in
+          Printf.printf "L %s\n" (hex_of_bytes (if fmt = "console" then render_console t e else render_logfmt t e))
         | "COOKIE" :: k0 :: k1 :: src :: dst :: sp :: dp :: _ ->
           Printf.printf "C %d\n" (int_of_n (cookie (n_of_hex k0) (n_of_hex k1) (bytes_of_hex src)
                                               (bytes_of_hex dst) (n_of_dec sp) (n_of_dec dp)))
